@@ -22,7 +22,7 @@ Proof. intros HF. fuel F 8. gocall. rewrite elems_length. gogo; reflexivity. Qed
 (* toZeroBased is [pos]; the receiver is not modified *)
 Lemma gen_toZeroBased l i F : 14 <= F ->
   call_at F (arr_val l) id_toZeroBased [VInt i] =
-  match pos (length l) i with Some k => ROk (VInt (Z.of_nat k), arr_val l) | None => RPanic end.
+  match pos (length l) i with Some k => ROk (VInt (Z.of_nat k), arr_val l) | None => RPanic (arr_val l) end.
 Proof.
   intros HF. fuel F 14. unfold pos. gocall. rewrite gen_array_GetSize by lia. gogo.
   all: try reflexivity. all: unfold arr_val; goeq.
@@ -30,7 +30,7 @@ Qed.
 
 Lemma gen_array_GetValue l i F : 20 <= F ->
   call_at F (arr_val l) id_GetValue [VInt i] =
-  match pos (length l) i with Some k => ROk (VElem (nth k l zero), arr_val l) | None => RPanic end.
+  match pos (length l) i with Some k => ROk (VElem (nth k l zero), arr_val l) | None => RPanic (arr_val l) end.
 Proof.
   intros HF. fuel F 20. gocall. rewrite gen_toZeroBased by lia.
   pose proof (pos_some (length l) i) as P. destruct (pos (length l) i) as [k|]; gorun; [|reflexivity].
@@ -39,7 +39,7 @@ Qed.
 
 Lemma gen_array_SetValue l i a F : 20 <= F ->
   call_at F (arr_val l) id_SetValue [VInt i; VElem a] =
-  match pos (length l) i with Some k => ROk (VTuple [], arr_val (set_nth k a l)) | None => RPanic end.
+  match pos (length l) i with Some k => ROk (VTuple [], arr_val (set_nth k a l)) | None => RPanic (arr_val l) end.
 Proof.
   intros HF. fuel F 20. gocall. rewrite gen_toZeroBased by lia.
   pose proof (pos_some (length l) i) as P. destruct (pos (length l) i) as [k|]; gorun; [|reflexivity].
@@ -103,7 +103,7 @@ Proof. intros HF. fuel F 6. gocall. reflexivity. Qed.
 
 Lemma gen_list_GetValue n l i F : 26 <= F ->
   call_at F (lst_val n l) id_GetValue [VInt i] =
-  match pos (length l) i with Some k => ROk (VElem (nth k l zero), lst_val n l) | None => RPanic end.
+  match pos (length l) i with Some k => ROk (VElem (nth k l zero), lst_val n l) | None => RPanic (lst_val n l) end.
 Proof.
   intros HF. fuel F 26. gocall. rewrite gen_array_GetValue by lia.
   destruct (pos (length l) i); gorun; reflexivity.
@@ -112,7 +112,7 @@ Qed.
 (* toNormalized: the ordinal 1..size of a valid index *)
 Lemma gen_toNormalized n l i F : 22 <= F ->
   call_at F (lst_val n l) id_toNormalized [VInt i] =
-  match pos (length l) i with Some k => ROk (VInt (Z.of_nat (S k)), lst_val n l) | None => RPanic end.
+  match pos (length l) i with Some k => ROk (VInt (Z.of_nat (S k)), lst_val n l) | None => RPanic (lst_val n l) end.
 Proof.
   intros HF. fuel F 22. unfold pos. gocall. rewrite gen_list_GetSize by lia. gogo.
   all: try reflexivity. all: unfold lst_val, lcls_val, arr_val; goeq.
@@ -121,7 +121,7 @@ Qed.
 (* validateSlot(slot uint): panics when slot > size *)
 Lemma gen_validateSlot n l (slot : nat) F : (Z.of_nat (length l) < two63)%Z -> 22 <= F ->
   call_at F (lst_val n l) id_validateSlot [VInt (Z.of_nat slot)] =
-  if length l <? slot then RPanic else ROk (VTuple [], lst_val n l).
+  if length l <? slot then RPanic (lst_val n l) else ROk (VTuple [], lst_val n l).
 Proof.
   intros HL HF. fuel F 22. gocall. rewrite gen_list_GetSize by lia. gogo. all: reflexivity.
 Qed.
@@ -141,7 +141,7 @@ Proof. unfold pos. repeat zsplit; cbn [orb]; try lia; try reflexivity; f_equal; 
 (* array.SetValue(index+1, a) as the loops use it: the model's [arr_set] *)
 Lemma gen_arr_set arr (idx : nat) a F : 20 <= F ->
   call_at F (arr_val arr) id_SetValue [VInt (Z.of_nat idx + 1); VElem a] =
-  match arr_set arr (S idx) a with Ret arr' => ROk (VTuple [], arr_val arr') | _ => RPanic end.
+  match arr_set arr (S idx) a with Ret arr' => ROk (VTuple [], arr_val arr') | _ => RPanic (arr_val arr) end.
 Proof.
   intros HF. rewrite gen_array_SetValue by lia. rewrite pos_ordinal. unfold arr_set. cbn [Nat.eqb orb].
   destruct (length arr <? S idx); [reflexivity|]. cbn [Nat.sub]. rewrite Nat.sub_0_r. reflexivity.
@@ -153,9 +153,14 @@ Ltac loop_enter F K := destruct F as [|F]; [lia|]; rewrite loop_S; unfold loop_s
 Definition iv_loop : stmt := nth 5 (fn_body fn_list__InsertValue) SBreak.
 Definition iv_cond : option expr := Eval cbv in match iv_loop with SFor _ c _ _ => c | _ => None end.
 Definition iv_body : list stmt := Eval cbv in match iv_loop with SFor _ _ _ b => b | _ => [] end.
+(* the variables of InsertValue, numbered by declaration site: v slot value size array iterator index existing *)
+Notation iv_v := 1%positive (only parsing).        Notation iv_slot := 2%positive (only parsing).
+Notation iv_value := 3%positive (only parsing).    Notation iv_size := 4%positive (only parsing).
+Notation iv_array := 5%positive (only parsing).    Notation iv_iterator := 6%positive (only parsing).
+Notation iv_index := 7%positive (only parsing).    Notation iv_existing := 8%positive (only parsing).
 Definition iv_env n l (slot : nat) a (size : nat) arr it (idx : nat) : env A :=
-  [(id_v, lst_val n l); (id_slot, VInt (Z.of_nat slot)); (id_value, VElem a); (id_size, VInt (Z.of_nat size));
-   (id_array, arr_val arr); (id_iterator, it_rep VNil it); (id_index, VInt (Z.of_nat idx))].
+  [(iv_v, lst_val n l); (iv_slot, VInt (Z.of_nat slot)); (iv_value, VElem a); (iv_size, VInt (Z.of_nat size));
+   (iv_array, arr_val arr); (iv_iterator, it_rep VNil it); (iv_index, VInt (Z.of_nat idx))].
 
 Notation iv_at F n l slot a size arr it idx ex :=
   (i_loop (interp_at A zero ext prog F) iv_cond None iv_body (iv_env n l slot a size arr it idx ++ ex)).
@@ -179,19 +184,11 @@ Proof.
   rewrite GS by lia. gorun. replace (Z.of_nat idx + 1)%Z with (Z.of_nat (S idx)) by lia. reflexivity.
 Qed.
 
-Lemma iv_step_new_panic : idx < size -> idx = slot -> arr_set arr (S idx) a = Panic ->
-  iv_at (S F) n l slot a size arr it idx ex = RPanic.
-Proof.
-  intros H E EA. pose proof (gen_arr_set arr idx a) as GS. rewrite EA in GS.
-  rewrite loop_S; unfold loop_step. fuel F 30. unfold iv_cond, iv_body, iv_env. gogo.
-  rewrite GS by lia. reflexivity.
-Qed.
-
-Hypothesis Hex : forall w, set id_existing w ex = [(id_existing, w)].
+Hypothesis Hex : forall w, set iv_existing w ex = [(iv_existing, w)].
 
 Lemma iv_step_old arr' : idx < size -> idx <> slot -> arr_set arr (S idx) (fst (get_next zero it)) = Ret arr' ->
   iv_at (S F) n l slot a size arr it idx ex =
-  iv_at F n l slot a size arr' (snd (get_next zero it)) (S idx) [(id_existing, VElem (fst (get_next zero it)))].
+  iv_at F n l slot a size arr' (snd (get_next zero it)) (S idx) [(iv_existing, VElem (fst (get_next zero it)))].
 Proof.
   intros H E EA. pose proof (gen_arr_set arr idx (fst (get_next zero it))) as GS. rewrite EA in GS.
   rewrite loop_S; unfold loop_step. fuel F 30. unfold iv_cond, iv_body, iv_env. gogo.
@@ -199,27 +196,18 @@ Proof.
   rewrite GS by lia. gorun. replace (Z.of_nat idx + 1)%Z with (Z.of_nat (S idx)) by lia. reflexivity.
 Qed.
 
-Lemma iv_step_old_panic : idx < size -> idx <> slot -> arr_set arr (S idx) (fst (get_next zero it)) = Panic ->
-  iv_at (S F) n l slot a size arr it idx ex = RPanic.
-Proof.
-  intros H E EA. pose proof (gen_arr_set arr idx (fst (get_next zero it))) as GS. rewrite EA in GS.
-  rewrite loop_S; unfold loop_step. fuel F 30. unfold iv_cond, iv_body, iv_env. gogo.
-  rewrite (gen_GetNext A zero ext) by lia. gorun. rewrite Hex. gorun.
-  rewrite GS by lia. reflexivity.
-Qed.
 End IvSteps.
 
 (* the generated loop simulates [insert_value_loop]: one unit of fuel per iteration plus a constant.
    [ex] is the rest of the environment: empty, or the variable "existing" declared by an earlier iteration *)
 Lemma iv_loop_sim n l slot a size : (Z.of_nat size < two63)%Z -> (Z.of_nat slot < two63)%Z ->
   forall mf idx it arr ex F,
-  (forall w, set id_existing w ex = [(id_existing, w)]) ->
+  (forall w, set iv_existing w ex = [(iv_existing, w)]) ->
   mf + 31 <= F ->
   match insert_value_loop A zero mf size slot a idx it arr with
   | Ret arr' => exists idx' it' ex',
       iv_at F n l slot a size arr it idx ex = ROk (SgNormal, iv_env n l slot a size arr' it' idx' ++ ex')
-  | Panic => iv_at F n l slot a size arr it idx ex = RPanic
-  | Hang => True
+  | _ => True
   end.
 Proof.
   intros HS HSl mf. induction mf as [|mf IH]; intros idx it arr ex F Hex HF;
@@ -231,13 +219,13 @@ Proof.
     + destruct (arr_set arr (S idx) a) as [arr'| |] eqn:EA; cbn [out_bind].
       * rewrite (iv_step_new n l slot a size HS HSl idx it arr ex F ltac:(lia) arr') by assumption.
         apply IH; [exact Hex|lia].
-      * apply iv_step_new_panic; assumption || lia.
+      * exact I.
       * exact I.
     + destruct (get_next zero it) as [existing it'] eqn:EN.
       destruct (arr_set arr (S idx) existing) as [arr'| |] eqn:EA; cbn [out_bind].
       * rewrite (iv_step_old n l slot a size HS HSl idx it arr ex F ltac:(lia) Hex arr') by (rewrite ?EN; assumption).
         rewrite EN. cbn [fst snd]. apply IH; [reflexivity|lia].
-      * apply iv_step_old_panic; rewrite ?EN; assumption || lia.
+      * exact I.
       * exact I.
 Qed.
 
@@ -247,7 +235,7 @@ Lemma gen_list_InsertValue_impl n l (slot : nat) a F :
   (Z.of_nat (length l) + 1 < two63)%Z -> length l + 100 <= F ->
   call_at F (lst_val n l) id_InsertValue [VInt (Z.of_nat slot); VElem a] =
   match insert_value_impl zero l slot a with
-  | Ret l' => ROk (VTuple [], lst_val n l') | Panic => RPanic | Hang => RFuel
+  | Ret l' => ROk (VTuple [], lst_val n l') | Panic => RPanic (lst_val n l) | Hang => RFuel
   end.
 Proof.
   intros HL HF. unfold insert_value_impl.
@@ -277,7 +265,7 @@ Proof. unfold pos. repeat zsplit; cbn [orb]; try lia; try reflexivity; f_equal; 
 
 Lemma gen_arr_set1 arr (index : nat) a F : 20 <= F ->
   call_at F (arr_val arr) id_SetValue [VInt (Z.of_nat index); VElem a] =
-  match arr_set arr index a with Ret arr' => ROk (VTuple [], arr_val arr') | _ => RPanic end.
+  match arr_set arr index a with Ret arr' => ROk (VTuple [], arr_val arr') | _ => RPanic (arr_val arr) end.
 Proof.
   intros HF. rewrite gen_array_SetValue by lia. rewrite pos_nat. unfold arr_set.
   destruct ((index =? 0) || (length arr <? index)); reflexivity.
@@ -286,9 +274,14 @@ Qed.
 Definition rv_loop : stmt := nth 6 (fn_body fn_list__RemoveValue) SBreak.
 Definition rv_cond : option expr := Eval cbv in match rv_loop with SFor _ c _ _ => c | _ => None end.
 Definition rv_body : list stmt := Eval cbv in match rv_loop with SFor _ _ _ b => b | _ => [] end.
+(* the variables of RemoveValue: v index removed size array counter iterator value *)
+Notation rv_v := 1%positive (only parsing).        Notation rv_index := 2%positive (only parsing).
+Notation rv_removed := 3%positive (only parsing).  Notation rv_size := 4%positive (only parsing).
+Notation rv_array := 5%positive (only parsing).    Notation rv_counter := 6%positive (only parsing).
+Notation rv_iterator := 7%positive (only parsing). Notation rv_value := 8%positive (only parsing).
 Definition rv_env n l (removed : A) (size : Z) arr (counter : Z) it (index : nat) : env A :=
-  [(id_v, lst_val n l); (id_index, VInt (Z.of_nat index)); (id_removed, VElem removed); (id_size, VInt size);
-   (id_array, arr_val arr); (id_counter, VInt counter); (id_iterator, it_rep VNil it)].
+  [(rv_v, lst_val n l); (rv_index, VInt (Z.of_nat index)); (rv_removed, VElem removed); (rv_size, VInt size);
+   (rv_array, arr_val arr); (rv_counter, VInt counter); (rv_iterator, it_rep VNil it)].
 Notation rv_at F n l removed size arr counter it index ex :=
   (i_loop (interp_at A zero ext prog F) rv_cond None rv_body (rv_env n l removed size arr counter it index ++ ex)).
 
@@ -304,11 +297,11 @@ Proof.
   rewrite (gen_HasNext A zero ext) by lia. rewrite H. gorun. reflexivity.
 Qed.
 
-Hypothesis Hex : forall w, set id_value w ex = [(id_value, w)].
+Hypothesis Hex : forall w, set rv_value w ex = [(rv_value, w)].
 
 Lemma rv_step_skip : has_next it = true -> (counter - 1 = 0)%Z ->
   rv_at (S F) n l removed size arr counter it index ex =
-  rv_at F n l removed size arr (counter - 1) (snd (get_next zero it)) index [(id_value, VElem (fst (get_next zero it)))].
+  rv_at F n l removed size arr (counter - 1) (snd (get_next zero it)) index [(rv_value, VElem (fst (get_next zero it)))].
 Proof.
   intros H E. rewrite loop_S; unfold loop_step. fuel F 30. unfold rv_cond, rv_body, rv_env. gorun.
   rewrite (gen_HasNext A zero ext) by lia. rewrite H. gorun.
@@ -317,7 +310,7 @@ Qed.
 
 Lemma rv_step_keep arr' : has_next it = true -> (counter - 1 <> 0)%Z -> arr_set arr index (fst (get_next zero it)) = Ret arr' ->
   rv_at (S F) n l removed size arr counter it index ex =
-  rv_at F n l removed size arr' (counter - 1) (snd (get_next zero it)) (S index) [(id_value, VElem (fst (get_next zero it)))].
+  rv_at F n l removed size arr' (counter - 1) (snd (get_next zero it)) (S index) [(rv_value, VElem (fst (get_next zero it)))].
 Proof.
   intros H E EA. pose proof (gen_arr_set1 arr index (fst (get_next zero it))) as GS. rewrite EA in GS.
   rewrite loop_S; unfold loop_step. fuel F 30. unfold rv_cond, rv_body, rv_env. gorun.
@@ -326,26 +319,16 @@ Proof.
   rewrite GS by lia. gorun. replace (Z.of_nat index + 1)%Z with (Z.of_nat (S index)) by lia. reflexivity.
 Qed.
 
-Lemma rv_step_keep_panic : has_next it = true -> (counter - 1 <> 0)%Z -> arr_set arr index (fst (get_next zero it)) = Panic ->
-  rv_at (S F) n l removed size arr counter it index ex = RPanic.
-Proof.
-  intros H E EA. pose proof (gen_arr_set1 arr index (fst (get_next zero it))) as GS. rewrite EA in GS.
-  rewrite loop_S; unfold loop_step. fuel F 30. unfold rv_cond, rv_body, rv_env. gorun.
-  rewrite (gen_HasNext A zero ext) by lia. rewrite H. gorun.
-  rewrite (gen_GetNext A zero ext) by lia. gorun. rewrite Hex. gogo.
-  rewrite GS by lia. reflexivity.
-Qed.
 End RvSteps.
 
 Lemma rv_loop_sim n l removed size : forall mf counter index it arr ex F,
-  (forall w, set id_value w ex = [(id_value, w)]) ->
+  (forall w, set rv_value w ex = [(rv_value, w)]) ->
   mf + 31 <= F ->
   match remove_value_loop A zero mf counter index it arr with
   | Ret arr' => exists counter' index' it' ex',
       rv_at F n l removed size arr counter it index ex =
       ROk (SgNormal, rv_env n l removed size arr' counter' it' index' ++ ex')
-  | Panic => rv_at F n l removed size arr counter it index ex = RPanic
-  | Hang => True
+  | _ => True
   end.
 Proof.
   intros mf. induction mf as [|mf IH]; intros counter index it arr ex F Hex HF;
@@ -358,7 +341,7 @@ Proof.
     + destruct (arr_set arr index v) as [arr'| |] eqn:EA; cbn [out_bind].
       * rewrite (rv_step_keep n l removed size counter index it arr ex F ltac:(lia) Hex arr' HN NE) by (rewrite EN; exact EA).
         rewrite EN. cbn [fst snd]. apply IH; [reflexivity|lia].
-      * apply rv_step_keep_panic; rewrite ?EN; assumption || lia.
+      * exact I.
       * exact I.
   - rewrite rv_exit by (assumption || lia). eexists _, _, _, _. reflexivity.
 Qed.
@@ -368,7 +351,7 @@ Lemma gen_list_RemoveValue_impl n l i F :
   (Z.of_nat (length l) < two63)%Z -> length l + 100 <= F ->
   call_at F (lst_val n l) id_RemoveValue [VInt i] =
   match remove_value_impl zero l i with
-  | Ret (r, l') => ROk (VElem r, lst_val n l') | Panic => RPanic | Hang => RFuel
+  | Ret (r, l') => ROk (VElem r, lst_val n l') | Panic => RPanic (lst_val n l) | Hang => RFuel
   end.
 Proof.
   intros HL HF. unfold remove_value_impl.
@@ -391,8 +374,8 @@ Proof.
   destruct (remove_value_loop A zero (S (length l)) (Z.of_nat (S k)) 1 (it_make l) (arr_make zero (length l - 1)))
     as [arr'| |]; cbn [out_map] in *.
   - destruct SIM as [c' [i' [it' [ex' SIM]]]]. rewrite SIM. unfold rv_env. gorun. reflexivity.
-  - rewrite SIM. reflexivity.
-  - (* the model's own fuel always suffices (remove_value_refines) *)
+  - (* the model's loop neither panics nor runs out of its own fuel (remove_value_refines) *)
     discriminate R.
+  - discriminate R.
 Qed.
 End GenSeq.
